@@ -240,7 +240,7 @@ func (i Int64) ExponentiateInt64(other Int64) Int64 {
 	}
 	result := i
 	var j Int64
-	for j = 2; j <= other; j++ {
+	for j = 1; j < other; j++ {
 		result *= i
 	}
 	return result
